@@ -250,6 +250,7 @@ def _haralick_options(mf, f, H, F, iz, dist, ndirs, same):
     if H14 is not None and (H14.shape != (ndirs, 14) or not same(H14[:, :13], H)):
         out.append(dict(kind='property', key='haralick:option:compute_14th_feature:first-13-changed', detail=dict(shape=list(H14.shape))))
     out.extend(c19_har.f14_findings(f, [int(v) for v in f.ravel().tolist()], H14, iz, dist, ndirs))
+    out.extend(c19_har.mean_findings(H, Hm, Hp))
     return out
 
 
